@@ -128,6 +128,11 @@ macro_rules! binop_forms {
                 z $opassign y;
                 z
             }
+            "ar" => {
+                let mut z = x;
+                z $opassign &y;
+                z
+            }
             _ => panic!("bad form"),
         }
     }};
@@ -176,6 +181,7 @@ macro_rules! int_binop {
                 "vr" => d $op &i,
                 "rr" => &d $op &i,
                 "as" => { let mut z = d; z $opassign i; z }
+                "ar" => { let mut z = d; z $opassign &i; z }
                 _ => panic!("bad form"),
             }
         } else {
